@@ -63,6 +63,10 @@ def make_simulator(prog, name="sim"):
     return S.DEVSSimulatorDuration(name, "s")
 
 
+class Runaway(Exception):
+    """events were executed far more often than they were scheduled (emergency brake fired)"""
+
+
 class Gate:
     def __init__(self):
         self.reached = threading.Event()
@@ -89,6 +93,8 @@ class Harness:
         self.pause_gate = None
         self.exec_count = 0
         self.inits = 0
+        self.runaway = False
+        self.max_exec = 32 * (len(prog.get("handlers", {})) + len(prog.get("init", [])) + 50)
         h = self
 
         class ProgModel(DSOLModel):
@@ -103,6 +109,12 @@ class Harness:
                 t = sim.simulator_time
                 ev = h.events.get(tag)
                 h.exec_count += 1
+                if h.exec_count > h.max_exec:
+                    # emergency brake (a tree that re-executes events would otherwise run and allocate for ever):
+                    # every tag is scheduled at most once, so this many executions is already a violation
+                    h.runaway = True
+                    sim.eventlist().clear()
+                    return
                 h.hlog.append((tag, float(t), type(t).__name__, ev.priority if ev is not None else None))
                 if h.pause_at is not None and h.exec_count == h.pause_at:
                     g = h.pause_gate
@@ -226,6 +238,8 @@ class Harness:
 
     def snapshot(self):
         w = self.worker()
+        if self.runaway:
+            raise Runaway(self.exec_count)
         return {"run_state": self.sim.run_state.name, "replication_state": self.sim.replication_state.name,
                 "clock": float(self.sim.simulator_time), "pending": self.sim.eventlist().size(),
                 "worker": "none" if w is None else ("dead" if not w.is_alive() else ("waiting" if w.is_waiting() and not w.is_running() else "busy"))}
@@ -324,7 +338,7 @@ def check_clock_monotone(h, ctx, where):
     return True
 
 
-def compare_traces(ctx, got, want, where, prefix_ok=False, what="trace"):
+def compare_traces(ctx, got, want, where, prefix_ok=False, what="trace", h=None):
     """got/want: lists of (tag, time).  classifies the first difference"""
     want = [(t, c) for (t, c) in want if t != WARMUP]
     ctx.count("trace_events_compared", len(want))
